@@ -323,4 +323,61 @@ example : Options.build [.keepaliveInterval (some 10000), .rwnd 0] = none := by 
 example : keepalive { Options.new with keepaliveTimeout := some 5 } (fun _ => none) [] 100000
     = .ok (PingLoop.init []) := by decide
 
+/-! ### The order on `OptionalDuration` that the clamp and the tick test rest on (`impl Ord`, timing.rs) -/
+
+/-- The order is total and antisymmetric up to equality; `none` ("no timeout") is the greatest element; finite
+    values compare as numbers. -/
+theorem od_order_spec (a b : OptionalDuration) :
+    (OptionalDuration.cmp a b = .eq ↔ a = b) ∧
+    (OptionalDuration.cmp a b = .lt ↔ OptionalDuration.cmp b a = .gt) ∧
+    OptionalDuration.cmp a none ≠ .gt ∧
+    (∀ x y : Nat, OptionalDuration.cmp (some x) (some y) = compare x y) := by
+  refine ⟨?_, ?_, ?_, fun _ _ => rfl⟩
+  · cases a <;> cases b <;> simp [OptionalDuration.cmp]
+  · cases a <;> cases b <;> simp [OptionalDuration.cmp, Nat.compare_eq_lt, Nat.compare_eq_gt]
+  · cases a <;> simp [OptionalDuration.cmp]
+
+/-- `≤` is transitive (so `min` / `max` of interval and timeout mean what they say). -/
+theorem od_le_trans (a b c : OptionalDuration) (h1 : OptionalDuration.le a b = true) (h2 : OptionalDuration.le b c = true) :
+    OptionalDuration.le a c = true := by
+  cases a <;> cases b <;> cases c <;>
+    simp_all [OptionalDuration.le, OptionalDuration.cmp, Nat.compare_eq_gt] <;> omega
+
+/-- `max` is the greater of the two, and `none` as soon as one of them is. -/
+theorem od_max_spec (a b : OptionalDuration) :
+    OptionalDuration.le a (OptionalDuration.max a b) = true ∧ OptionalDuration.le b (OptionalDuration.max a b) = true ∧
+    (OptionalDuration.max a b = a ∨ OptionalDuration.max a b = b) ∧
+    ((a = none ∨ b = none) → OptionalDuration.max a b = none) := by
+  cases a with
+  | none => cases b <;> simp [OptionalDuration.max, OptionalDuration.le, OptionalDuration.cmp]
+  | some x =>
+    cases b with
+    | none => simp [OptionalDuration.max, OptionalDuration.le, OptionalDuration.cmp]
+    | some y =>
+      by_cases h : y < x
+      · have hc : compare x y = .gt := Nat.compare_eq_gt.mpr h
+        simp [OptionalDuration.max, OptionalDuration.le, OptionalDuration.cmp, hc, Nat.compare_eq_gt]
+        omega
+      · have hc : compare x y ≠ .gt := by rw [Ne, Nat.compare_eq_gt]; exact h
+        simp [OptionalDuration.max, OptionalDuration.le, OptionalDuration.cmp, hc, Nat.compare_eq_gt]
+
+/-- `From<Duration>`: exactly the zero duration becomes "none"; the command line (`FromStr`): whole seconds,
+    `0` is "none", what is no `u64` is refused. -/
+theorem od_conversions_spec (ms : Nat) (secs : Option Nat) :
+    (OptionalDuration.ofDuration ms = none ↔ ms = 0) ∧
+    (ms ≠ 0 → OptionalDuration.ofDuration ms = some ms) ∧
+    (OptionalDuration.ofSecsText secs = none ↔ secs = none) ∧
+    (OptionalDuration.ofSecsText (some 0) = some none) ∧
+    (∀ v, v ≠ 0 → OptionalDuration.ofSecsText (some v) = some (some (v * 1000))) := by
+  refine ⟨?_, ?_, ?_, rfl, ?_⟩
+  · unfold OptionalDuration.ofDuration; split <;> simp_all
+  · intro h; simp [OptionalDuration.ofDuration, h]
+  · cases secs with
+    | none => simp [OptionalDuration.ofSecsText]
+    | some v => simp [OptionalDuration.ofSecsText]; split <;> simp
+  · intro v hv; simp [OptionalDuration.ofSecsText, hv]
+
+example : OptionalDuration.cmp none (some 5) = .gt ∧ OptionalDuration.max (some 3) none = none ∧
+    OptionalDuration.max (some 3) (some 7) = some 7 ∧ OptionalDuration.ofDuration 0 = none := by decide
+
 end Penguin.C16
